@@ -462,3 +462,5 @@ h19e!(c19_lex_w111, [1, 1, 1], 3, 3, 5);
 h19e!(c19_lex_w121, [1, 2, 1], 3, 4, 6);
 h19f!(c19_lexcol_w11, [1, 1], 2, 2, 4);
 h19f!(c19_lexcol_w111, [1, 1, 1], 3, 3, 5);
+h19f!(c19_lexcol_w12, [1, 2], 2, 3, 5);
+h19f!(c19_lexcol_w21, [2, 1], 2, 3, 5);
